@@ -14,6 +14,9 @@ EXPLANATION = (
     "keeps user order, and the code generator, inside its single forward loop over the items, performs define_function < "
     "finalize_definitions < call initialiser < insert exactly once per constant."
 )
+EXPLANATION += (
+    ' D2 examines every test on a multi-item component: the len > 1 gate dominates the rejection, and the rejection does not depend on how many constants the component holds.'
+)
 ASSUMPTIONS = [
     "Tarjan's SCC implementation returns components in reverse topological order (trusted; covered by the crate's unit tests)",
 ]
